@@ -1315,7 +1315,11 @@ class Interp:
         return self.comp(e, fr, "list")
 
     def ex_GeneratorExp(self, e, fr):
-        return self.comp(e, fr, "list")
+        v = self.comp(e, fr, "list")
+        o = self.obj(v)
+        if o is not None:
+            o.meta["generator"] = pyfacts.where(fr.func, e)      # a one-shot iterator, modelled by the list of what it yields
+        return v
 
     def ex_SetComp(self, e, fr):
         return self.comp(e, fr, "list")
